@@ -289,6 +289,52 @@ def lexicase_part(find, rng, dl, quick, stats):
                         stats["exhaustive_cases"] += 1
 
 
+def tournament_reuse_part(find, rng, quick, stats):
+    """ONE TournamentSelection object applied to many successive populations of new individuals (as in a GP run): whatever the
+    step keeps between calls must not leak from one population into the next (earlier individuals are dropped, their
+    addresses get reused)."""
+    import gc
+
+    for minimize in (False, True):
+        for t, wr in ((2, True), (3, True), (3, False)):
+            step = TournamentSelection(t, with_replacement=wr)
+            rep = IntRep()
+            table = [rng.randint(0, 50) for _ in range(997)]
+            ff = TableFitness(table)
+            problem = SingleObjectiveProblem(ff, minimize)
+            tracker = single_tracker(problem)
+            for gen in range(12 if quick else 60):
+                inds = [Individual(rep.create_genotype(None), rep) for _ in range(14)]
+                tracker.evaluator.evaluate(problem, inds)
+                vals = {id(i): ff.value(i.get_phenotype()) for i in inds}
+                rs = RecSource(NativeRandomSource(gen))
+                desc = f"one TournamentSelection({t}, with_replacement={wr}) object, generation {gen + 1} of successive fresh populations of 14, minimize={minimize}"
+                g = step.apply(problem, tracker.evaluator, rep, rs, list(inds), 6, gen)
+                n = 0
+                while True:
+                    mark = len(rs.choices)
+                    try:
+                        w = next(g)
+                    except StopIteration:
+                        break
+                    except Exception as ex:  # noqa
+                        find.add("rt:C17:TournamentSelection.exception", f"{desc}: raised {type(ex).__name__}: {str(ex)[:80]}", (gen,))
+                        return
+                    n += 1
+                    stats["runs"] += 1
+                    dv = [vals.get(id(d)) for (_, d) in rs.choices[mark:]]
+                    if id(w) not in vals or any(v is not None and better(v, vals[id(w)], minimize) for v in dv):
+                        find.add(
+                            "rt:C17:TournamentSelection.winner_not_best",
+                            f"{desc}: winner #{n} has value {vals.get(id(w))} but the participants drawn for its tournament had {dv}",
+                            (gen, t),
+                        )
+                        return
+                stats["cases"] += 1
+                del inds, vals, g
+                gc.collect()
+
+
 def run(tier: str, seed: int) -> dict:
     quick = tier != "thorough"
     rng = pyrandom.Random(seed)
@@ -297,6 +343,7 @@ def run(tier: str, seed: int) -> dict:
     ls = dict(cases=0, runs=0, nontrivial=0, exhaustive_cases=0, complete=True)
     tournament_part(find, rng, Deadline(8 if quick else 100), quick, ts)
     lexicase_part(find, rng, Deadline(16 if quick else 130), quick, ls)
+    tournament_reuse_part(find, rng, quick, ts)
     samples = [
         f"tournament: {ts['cases']} configurations, {ts['runs']} draw outcomes, {ts['exhaustive_cases']} configurations with ALL outcomes",
         f"lexicase: {ls['cases']} configurations, {ls['runs']} draw outcomes, {ls['exhaustive_cases']} configurations with ALL outcomes",
